@@ -144,6 +144,44 @@ func Try(f func()) (panicked bool) {
 	return false
 }
 
+// Isolated runs f, which must only READ what it captured and must build everything it returns itself.
+// Symbolically the engine watches every store f makes (directly or through callees): a store into a heap
+// cell that existed before the call - reachable from a package-level variable or from a captured variable,
+// incl. slice cells between len and cap - is reported ("shared-write"): two concurrent calls of f would both
+// touch that cell.  Natively, with VH_RACE=1 (binary built with -race), f runs in two goroutines at once so
+// that the race detector confirms the report; otherwise f simply runs.
+func Isolated(f func() ([]byte, error)) ([]byte, error) {
+	if os.Getenv("VH_RACE") == "" {
+		return f()
+	}
+	type res struct {
+		b []byte
+		e error
+	}
+	c := make(chan res, 2)
+	start := make(chan struct{})
+	for i := 0; i < 2; i++ {
+		go func() {
+			<-start
+			b, e := f()
+			c <- res{b, e}
+		}()
+	}
+	close(start)
+	r := <-c
+	<-c
+	return r.b, r.e
+}
+
+// IsolatedProbe is the recorder's reachability witness: it runs f under the same write-set recorder as Isolated
+// and returns whether f wrote to pre-existing memory, reporting nothing.  Harnesses assert that a deliberate
+// shared write IS seen (a recorder that sees nothing would make every Isolated call pass).  Natively: runs f,
+// returns true.
+func IsolatedProbe(f func()) bool {
+	f()
+	return true
+}
+
 // Sink is a recording io.Writer (interpreted symbolically as ordinary Go).
 type Sink struct{ B []byte }
 
